@@ -141,6 +141,7 @@ func c18Gen(tier string, r *hx.Rng) {
 	}
 	// double-quoted words for the shell model itself (no $ or ` : those are
 	// expansions, which the model only flags)
+	c18GenScripts(tier, r)
 	nd := 2000
 	// Every word is exactly one closed double-quoted segment: a quote
 	// character only appears behind a backslash, so nothing is ever left
@@ -197,6 +198,8 @@ func c18Impl(args []string) {
 		case "f":
 			c := c18ParseF(f)
 			fmt.Fprintln(hx.Out, hx.H(core.VerifFormatArgs(c.envs, c.cmd, c.argv)))
+		case "j":
+			fmt.Fprintln(hx.Out, c18ImplScript(f))
 		case "d":
 			// the "implementation" of the shell model is the real /bin/sh
 			vals, ok := shEvalWords([]string{hx.U(f[1])})
@@ -331,6 +334,9 @@ func c18Oracle(args []string) {
 		case "q":
 			qidx = append(qidx, idx)
 			qs = append(qs, hx.U(f[1]))
+		case "j":
+			ncmd++
+			results[idx] = c18OracleScript(f, scratch, ncmd, self)
 		case "f":
 			c := c18ParseF(f)
 			ncmd++
@@ -431,11 +437,17 @@ func dumpEnvMain() {
 	var keys []string
 	for _, kv := range os.Environ() {
 		k, v, _ := strings.Cut(kv, "=")
-		if k == "VH_DUMP" || k == "PATH" || k == "PWD" || k == "OLDPWD" || k == "SHLVL" || k == "_" {
+		if k == "VH_DUMP" || k == "VH_DUMP_FILE" || k == "PATH" || k == "PWD" || k == "OLDPWD" || k == "SHLVL" || k == "_" {
 			continue
 		}
 		env[k] = v
 		keys = append(keys, k)
+	}
+	if f := os.Getenv("VH_DUMP_FILE"); f != "" {
+		// job templates may redirect or background the command: report through a file
+		os.WriteFile(f+".tmp", []byte(dumpFormat(os.Args, env, keys)), 0o644)
+		os.Rename(f+".tmp", f)
+		return
 	}
 	os.Stdout.WriteString(dumpFormat(os.Args, env, keys))
 }
